@@ -1,7 +1,7 @@
 (* Extraction of the C37 model and checker (run from the output directory; not part of `make`).
    The module is called semodel so that ocaml/expr_io.ml (open Semodel) resolves. *)
-From SE Require Import Expr.IO C37.CseModel C37.CseLib C37.CseCheck.
+From SE Require Import Expr.IO C37.CseModel C37.CseLib C37.CseCheck C37.CseOptLib.
 Require Import ExtrOcamlBasic.
 Extraction "semodel.ml" N_of_digits Z_of_digits digits_of_N tc_lookup tc_table hash expr_eqb expr_cmp wf
   tree_cse_lib lib_ctors check_cse check_cse_parts rep_names backsubst get_args tree_ok
-  excl_complete_run cse_guard.
+  excl_complete_run cse_guard opt_cse_lib cse_lib.
